@@ -87,6 +87,41 @@ def replica_events_world(pair, r, res):
     return None
 
 
+def repeated_upgrade(pair, r, res):
+    """'an upgrade event if and only if the proof CARRIED an upgrade': proofs requested while the replica was still empty all
+    carry the same upgrade section; applied one after the other, the later ones carry an upgrade that no longer grows the replica.
+    Also the duplicate delivery of an upgrade-only proof. Every accepted one must announce the upgrade."""
+    p = pair
+    found = []
+    n = r.choice([3, 5, 8])
+    p.reset(); p.raw("disk D"); p.raw("disk RD")
+    p.do("new W D writer"); p.do("new R RD replica")
+    p.do("append W " + " ".join(hexb(bytes([65 + i]) * (i % 3 + 1)) for i in range(n)))
+    p.raw("sub R s1")
+    reqs = ["%d,0 - - 0,%d" % (i, n) for i in r.sample(range(n), min(n, 3))] + ["- - - 0,%d" % n]
+    proofs = []
+    for rq in reqs:
+        ia, _ = p.do("prove W " + rq)
+        if ia.startswith("ok ") and ia != "ok none":
+            proofs.append((rq, ia[3:]))
+    proofs.append(proofs[-1])   # duplicate delivery of the upgrade-only proof
+    p.raw("events R s1")
+    for k, (rq, pf) in enumerate(proofs):
+        aa, ma = p.do("apply R " + pf)
+        ie, me = p.raw("events R s1")
+        res.count("repeated-upgrade-proofs")
+        if aa != "ok 1":
+            continue
+        pr = parse_proof(pf)
+        exp = "ok" + (" U" if pr["upgrade"] is not None else "") + (" H:%d:1:0" % pr["block"]["index"] if pr["block"] is not None else "")
+        if ie != exp:
+            found.append(dict(key="events:repeated-upgrade", what="proof number %d (request %s; the replica was already at length %d for k>0) was accepted and "
+                              "carried an upgrade section, but the events were [%s], specification says [%s]" % (k, rq, n, ie[3:], exp[3:]),
+                              replay=dict(blocks=n, requests=[x[0] for x in proofs], failing=k)))
+            break
+    return found
+
+
 def failed_calls_silent(pair, r, res, tier):
     """'Refused, failed and no-op calls emit nothing': one I/O error is injected at EVERY storage operation of an
     append (writer) and of a proof application (replica), in every phase of the flush cadence; a call that answers an
@@ -186,6 +221,10 @@ def main(tier, seed):
             res.disagreements.extend(pair.disagreements[:2]); pair.disagreements = []
             if len(res.violations) >= 4:
                 break
+        for k in range(4 if tier == "quick" else 60):
+            res.violations.extend(repeated_upgrade(pair, r, res))
+            res.disagreements.extend(pair.disagreements[:2]); pair.disagreements = []
+        res.add_case(("repeated-upgrade",), True)
         res.violations.extend(failed_calls_silent(pair, r, res, tier))
         res.add_case(("failed-calls-silent",), True, sample="I/O error at every storage operation of appends and proof applications with a subscriber attached")
         res.extra["commands_compared"] = pair.ncmp
